@@ -144,8 +144,8 @@ func isFieldLoad(v ssa.Value, field string) bool {
 	if !ok {
 		return false
 	}
-	s, ok := st.Elem().Underlying().(*types.Struct)
-	return ok && s.Field(fa.Field).Name() == field
+	_, ok = st.Elem().Underlying().(*types.Struct)
+	return ok && fieldNameAt(st.Elem(), fa.Field) == field
 }
 
 // findByRole: the function of pkg rel whose SSA contains an instruction matching pred.
@@ -709,26 +709,95 @@ func ruleORD4(w *World, r *Report) {
 				return false
 			}
 			ok, wit := mustFollow(fn, bi, endsOrDefer, failureEdges(fn, bi.(*ssa.Call)))
+			why := "a path returns after BeginSnapshotMode without EndSnapshotMode: the writer stays in snapshot mode and every later write is buffered in memory only"
 			if !ok {
-				// the clean-up was registered before snapshot mode was entered (one deferred function for every way out,
-				// which ends the mode when this call holds it): it runs at every exit after the Begin as well
+				// The clean-up was registered BEFORE snapshot mode was entered — one deferred function for every way out. It runs
+				// at every exit after the Begin as well, which is fine; it also runs when the Begin FAILED (another snapshot or
+				// compaction holds the mode), and must not end THAT operation's snapshot mode: the End inside it has to hang on a
+				// flag that is still in its initial state on the failure path and is flipped only once the Begin has succeeded.
 				for _, d := range findInstrs(fn, func(in ssa.Instruction) bool { _, isD := in.(*ssa.Defer); return isD && endsOrDefer(in) }) {
 					db, bb := d.Block(), bi.Block()
+					before := false
 					if db == bb {
 						for _, in := range bb.Instrs {
 							if in == d {
-								ok = true
+								before = true
 							}
 							if in == bi {
 								break
 							}
 						}
 					} else if db.Dominates(bb) {
+						before = true
+					}
+					if !before {
+						continue
+					}
+					mc, _ := d.(*ssa.Defer).Call.Value.(*ssa.MakeClosure)
+					if mc == nil {
+						continue
+					}
+					cf, _ := mc.Fn.(*ssa.Function)
+					if cf == nil {
+						continue
+					}
+					guarded := false
+					// a captured bool cell whose load guards every End of the closure, on one polarity
+					for _, fv := range cf.FreeVars {
+						pt, isPtr := fv.Type().Underlying().(*types.Pointer)
+						if !isPtr || !isBoolType(pt.Elem()) {
+							continue
+						}
+						cell := cellRoot(fv)
+						isLoad := func(in ssa.Instruction) bool {
+							ld, ok := in.(*ssa.UnOp)
+							return ok && ld.Op == token.MUL && cellRoot(ld.X) == cell
+						}
+						val := func(in ssa.Instruction) ssa.Value { return in.(ssa.Value) }
+						for _, want := range []bool{true, false} {
+							if gOK, _ := mustPassGuard(cf, isEnd, isLoad, val, want, nil); !gOK {
+								continue
+							}
+							// the flag's value while the Begin has not succeeded: every store that can reach the Begin (none: the zero
+							// value) must be the other constant; and some store after the Begin's success sets the guarding value
+							safe, set := true, false
+							nStores := 0
+							for _, st := range cellStores(cell) {
+								if st.Parent() != fn {
+									continue
+								}
+								k, isK := st.Val.(*ssa.Const)
+								reaches, _ := (pathQuery{fn: fn, target: func(in ssa.Instruction) bool { return in == bi }}).find(posOf(st))
+								if reaches {
+									nStores++
+									if !isK || k.Value == nil || constant.BoolVal(k.Value) == want {
+										safe = false
+									}
+								}
+								if isK && k.Value != nil && constant.BoolVal(k.Value) == want {
+									if after, _ := precedesWithSuccess(fn, func(in ssa.Instruction) bool { return in == bi }, func(in ssa.Instruction) bool { return in == ssa.Instruction(st) }); after {
+										set = true
+									} else {
+										safe = false // the guarding value can be set without a successful Begin
+									}
+								}
+							}
+							if nStores == 0 && !want {
+								safe = false // the zero value false already lets the End run
+							}
+							if safe && set {
+								guarded = true
+							}
+						}
+					}
+					if guarded {
 						ok = true
+					} else {
+						why = "the deferred clean-up that ends snapshot mode is registered before BeginSnapshotMode and its End does not hang on a flag that is set only after the Begin has succeeded: when the Begin is refused because a snapshot or compaction is already under way, this function's exit ends THAT operation's snapshot mode — its shadow-buffered writes are re-queued or dropped while it still relies on the log being quiet, and acknowledged writes are lost or the compacted log misses them"
 					}
 				}
 			}
-			r.Cond(ok, "ORD-4", "Begin-then-End@"+shortName(fi.Obj), w.Pos(bi.Pos()), "EndSnapshotMode on every exit after BeginSnapshotMode", "a path returns after BeginSnapshotMode without EndSnapshotMode: the writer stays in snapshot mode and every later write is buffered in memory only", w.witness(wit)...)
+			r.Cond(ok, "ORD-4", "Begin-then-End@"+shortName(fi.Obj), w.Pos(bi.Pos()), "EndSnapshotMode on every exit after BeginSnapshotMode", why, w.witness(wit)...)
 		}
 	}
 }
